@@ -40,7 +40,17 @@
 // (data-change event of the write), 4 parked, 5 returned, 6 timer body started, 7 no timer body,
 // 8 p n bookkeeping entries of p left, 9 p c pending entry, 10 p c n tally entry, 11 p c data is
 // the value of write (p, c), 12 no data, 13 p k other datagram to p, 14 data changed without event,
-// 96 the executor could not realise the step (timing), 97 malformed operation.
+// 15 k a call into the stack did not return within the watchdog's bound (k: 1 inbound write, 2 verdict
+// lookup, 3 verdict commit, 5 timer body, 6 RemoveRemoteDevice, 7 accessor / DataCopy, 0 the stack was
+// not asked again after such an event), 96 the executor could not realise the step (timing), 97
+// malformed operation.
+//
+// Watchdog: every call into the stack that can block (the inbound write, ApproveOrDenyWrite of a
+// verdict step, the timer body, RemoveRemoteDevice, the accessor and DataCopy, also in Close) is
+// given 2 s; a call that does not return becomes the observation 15, which the model never
+// produces and the monitor rejects (clause call-into-the-stack-never-returned); its goroutine is
+// abandoned, the world is not asked again, Close does not wait for it.  After the first such event
+// of the process the bound is 300 ms (the shrinker re-executes the blocking schedule many times).
 package main
 
 import (
@@ -49,6 +59,7 @@ import (
 	"runtime"
 	"sort"
 	"sync"
+	"sync/atomic"
 	"time"
 
 	"github.com/enbility/spine-go/api"
@@ -60,11 +71,47 @@ import (
 )
 
 const (
-	stepTimeout = 5 * time.Second
-	valueBase   = 1000000 // value of write (p, c) = p*valueBase + c
-	deniedErr   = 7
-	maxRetries  = 5
+	stepTimeout  = 2 * time.Second        // watchdog bound for a call into the stack ...
+	shortTimeout = 300 * time.Millisecond // ... once a call has failed to return (process-wide: see impatient)
+	valueBase    = 1000000                // value of write (p, c) = p*valueBase + c
+	deniedErr    = 7
+	maxRetries   = 5
 )
+
+// impatient is set by the first watchdog expiry of the process: a tree on which a call into the
+// stack blocks once will block again in every shrink candidate, and each wait is real time.
+var impatient atomic.Bool
+
+var stuckCalls atomic.Int64
+
+func bound() time.Duration {
+	if impatient.Load() {
+		return shortTimeout
+	}
+	return stepTimeout
+}
+
+// expired notes that a wait ran into the watchdog's bound.
+func expired() { impatient.Store(true) }
+
+// guarded runs a call into the stack on a goroutine of its own and reports whether it returned
+// within the bound.  A call that does not is abandoned (its goroutine stays blocked); a panic of
+// the call is reported as such.
+func guarded(f func()) (returned bool, panicked any) {
+	done := make(chan any, 1)
+	go func() {
+		defer func() { done <- recover() }()
+		f()
+	}()
+	select {
+	case p := <-done:
+		return true, p
+	case <-time.After(bound()):
+		expired()
+		stuckCalls.Add(1)
+		return false, nil
+	}
+}
 
 var (
 	baseSlot    = 4 * time.Millisecond // slot length T
@@ -157,6 +204,7 @@ type world struct {
 	threads map[vid]*vthread
 	last    *wid  // the write applied last according to the events
 	bound   int64 // the peer holding the binding of the server feature (-1 none)
+	stuck   bool  // a call into this world's stack never returned: nothing more is asked of it
 }
 
 var fn = model.FunctionTypeLoadControlLimitListData
@@ -365,10 +413,14 @@ func (m *world) close() {
 	for _, th := range m.threads {
 		if th.state == 1 {
 			close(th.resume)
+			if m.stuck {
+				continue // it may block behind the call that never returned: abandoned
+			}
 			select {
 			case <-th.done:
-			case <-time.After(stepTimeout):
-				fmt.Println("c12: verdict goroutine did not finish")
+			case <-time.After(bound()):
+				expired()
+				m.stuck = true
 			}
 		}
 	}
@@ -381,10 +433,23 @@ func (m *world) close() {
 		}
 	}
 	m.mu.Unlock()
-	for p := range m.peers {
-		m.dev.RemoveRemoteDevice(m.ski(p))
+	// the removal of the connections takes the approval mutexes: never wait for it without bound
+	if !m.stuck {
+		for p := range m.peers {
+			ski := m.ski(p)
+			if ok, _ := guarded(func() { m.dev.RemoveRemoteDevice(ski) }); !ok {
+				m.stuck = true
+				break
+			}
+		}
 	}
 	_ = spine.VerifStackUnsubscribeCore(m)
+}
+
+// stuckObs marks the world as wedged and is the observation of a call that never returned.
+func (m *world) stuckObs(kind int64) []hx.Zs {
+	m.stuck = true
+	return append(m.collect(), hx.Zs{15, kind}) // what was written before the call blocked, then the fact
 }
 
 func isClosed(c chan struct{}) bool {
@@ -454,11 +519,25 @@ func (m *world) collect() []hx.Zs {
 		out = append(out, hx.Zs{13, s.p, k})
 	}
 	// the function data must be the value of the write applied last
-	cur, has := valueWrite(m.feat.DataCopy(fn))
+	if m.stuck {
+		return out
+	}
+	var cur wid
+	var has bool
+	if ok, _ := guarded(func() { cur, has = valueWrite(m.feat.DataCopy(fn)) }); !ok {
+		m.stuck = true
+		return append(out, hx.Zs{15, 7})
+	}
 	if (last == nil) != !has || (last != nil && *last != cur) {
 		out = append(out, hx.Zs{14})
 	}
 	return out
+}
+
+// approvalState reads the bookkeeping maps through the accessor (which takes both approval mutexes).
+func (m *world) approvalState() (pend map[string][]uint64, tally map[string]map[uint64]int, ok bool) {
+	ok, _ = guarded(func() { pend, tally = m.feat.VerifWriteApprovalState() })
+	return
 }
 
 func (m *world) exec(op hx.Zs) (obs []hx.Zs, mistimed bool) {
@@ -466,6 +545,9 @@ func (m *world) exec(op hx.Zs) (obs []hx.Zs, mistimed bool) {
 	skipped := []hx.Zs{{0}}
 	if len(op) == 0 {
 		return bad, false
+	}
+	if m.stuck {
+		return []hx.Zs{{15, 0}}, false // a call never returned earlier in this history: the stack is not asked again
 	}
 	switch op[0] {
 	case 0: // AddCb
@@ -500,8 +582,12 @@ func (m *world) exec(op hx.Zs) (obs []hx.Zs, mistimed bool) {
 		if m.gone[w.p] || m.arrived[w] {
 			return skipped, false
 		}
-		pr := m.ensurePeer(w.p)
-		m.bindTo(w.p)
+		var pr *peer
+		if ok, pnc := guarded(func() { pr = m.ensurePeer(w.p); m.bindTo(w.p) }); !ok {
+			return m.stuckObs(1), false
+		} else if pnc != nil {
+			panic(pnc)
+		}
 		m.arrived[w] = true
 		m.ack[w] = op[3] != 0
 		rec := &timerRec{slot: op[4], parked: make(chan struct{}), release: make(chan struct{}), done: make(chan struct{})}
@@ -518,18 +604,24 @@ func (m *world) exec(op hx.Zs) (obs []hx.Zs, mistimed bool) {
 		m.mu.Lock()
 		m.timers[w] = rec
 		m.mu.Unlock()
-		m.feat.SetWriteApprovalTimeout(timeout)
 		h := model.HeaderType{AddressSource: clientAddr(pr.devA), AddressDestination: m.feat.Address(),
 			MsgCounter: util.Ptr(model.MsgCounterType(w.c)), CmdClassifier: util.Ptr(model.CmdClassifierTypeWrite)}
 		if m.ack[w] {
 			h.AckRequest = util.Ptr(true)
 		}
-		m.inject(pr, h, model.CmdType{LoadControlLimitListData: &model.LoadControlLimitListDataType{LoadControlLimitData: []model.LoadControlLimitDataType{
-			{LimitId: util.Ptr(model.LoadControlLimitIdType(1)), Value: &model.ScaledNumberType{Number: util.Ptr(model.NumberType(w.p*valueBase + w.c))}}}}})
+		if ok, pnc := guarded(func() {
+			m.feat.SetWriteApprovalTimeout(timeout)
+			m.inject(pr, h, model.CmdType{LoadControlLimitListData: &model.LoadControlLimitListDataType{LoadControlLimitData: []model.LoadControlLimitDataType{
+				{LimitId: util.Ptr(model.LoadControlLimitIdType(1)), Value: &model.ScaledNumberType{Number: util.Ptr(model.NumberType(w.p*valueBase + w.c))}}}}})
+		}); !ok {
+			return m.stuckObs(1), false
+		} else if pnc != nil {
+			panic(pnc)
+		}
 		// the timer was created during the call: it expires no later than now + timeout
 		rec.latest = time.Now().Add(timeout)
 		// the callbacks run on goroutines of their own: wait until each has been entered
-		deadline := time.Now().Add(stepTimeout)
+		deadline := time.Now().Add(bound())
 		for {
 			m.mu.Lock()
 			n := 0
@@ -539,7 +631,11 @@ func (m *world) exec(op hx.Zs) (obs []hx.Zs, mistimed bool) {
 				}
 			}
 			m.mu.Unlock()
-			if n >= m.ncb || time.Now().After(deadline) {
+			if n >= m.ncb {
+				break
+			}
+			if time.Now().After(deadline) {
+				expired() // a callback was not entered: the missing presentation is the observation
 				break
 			}
 			runtime.Gosched()
@@ -585,8 +681,15 @@ func (m *world) exec(op hx.Zs) (obs []hx.Zs, mistimed bool) {
 			m.cur = nil
 			m.mu.Unlock()
 			return append(m.collect(), hx.Zs{5}), false
-		case <-time.After(stepTimeout):
-			return []hx.Zs{{96}}, false
+		case <-time.After(bound()):
+			// ApproveOrDenyWrite neither reached the hook nor returned: the goroutine is abandoned
+			expired()
+			stuckCalls.Add(1)
+			th.state = 3
+			m.mu.Lock()
+			m.cur = nil
+			m.mu.Unlock()
+			return m.stuckObs(2), false
 		}
 	case 3: // Commit
 		if len(op) != 4 {
@@ -604,8 +707,11 @@ func (m *world) exec(op hx.Zs) (obs []hx.Zs, mistimed bool) {
 		close(th.resume)
 		select {
 		case <-th.done:
-		case <-time.After(stepTimeout):
-			return []hx.Zs{{96}}, false
+		case <-time.After(bound()):
+			expired()
+			stuckCalls.Add(1)
+			th.state = 3
+			return m.stuckObs(3), false
 		}
 		if m.bodyStarted(w) {
 			return nil, true
@@ -663,8 +769,10 @@ func (m *world) exec(op hx.Zs) (obs []hx.Zs, mistimed bool) {
 		close(rec.release)
 		select {
 		case <-rec.done:
-		case <-time.After(stepTimeout):
-			return []hx.Zs{{96}}, false
+		case <-time.After(bound()):
+			expired()
+			stuckCalls.Add(1)
+			return m.stuckObs(5), false
 		}
 		return m.collect(), false
 	case 6: // Clean
@@ -675,7 +783,11 @@ func (m *world) exec(op hx.Zs) (obs []hx.Zs, mistimed bool) {
 		if m.gone[p] {
 			return skipped, false
 		}
-		m.ensurePeer(p)
+		if ok, pnc := guarded(func() { m.ensurePeer(p) }); !ok {
+			return m.stuckObs(6), false
+		} else if pnc != nil {
+			panic(pnc)
+		}
 		for w := range m.arrived {
 			if w.p == p && m.bodyEarly(w) {
 				return nil, true
@@ -685,13 +797,20 @@ func (m *world) exec(op hx.Zs) (obs []hx.Zs, mistimed bool) {
 		if m.bound == p {
 			m.bound = -1
 		}
-		m.dev.RemoveRemoteDevice(m.ski(p))
+		if ok, pnc := guarded(func() { m.dev.RemoveRemoteDevice(m.ski(p)) }); !ok {
+			return m.stuckObs(6), false
+		} else if pnc != nil {
+			panic(pnc)
+		}
 		for w := range m.arrived {
 			if w.p == p && m.bodyStarted(w) {
 				return nil, true
 			}
 		}
-		pend, tally := m.feat.VerifWriteApprovalState()
+		pend, tally, ok := m.approvalState()
+		if !ok {
+			return m.stuckObs(7), false
+		}
 		n := int64(len(pend[m.ski(p)]) + len(tally[m.ski(p)]))
 		return append(m.collect(), hx.Zs{8, p, n}), false
 	case 7: // Probe
@@ -699,7 +818,14 @@ func (m *world) exec(op hx.Zs) (obs []hx.Zs, mistimed bool) {
 			return bad, false
 		}
 		out := m.collect()
-		pend, tally := m.feat.VerifWriteApprovalState()
+		if m.stuck {
+			return out, false
+		}
+		pend, tally, ok := m.approvalState()
+		if !ok {
+			m.stuck = true
+			return append(out, hx.Zs{15, 7}), false
+		}
 		for ski, cs := range pend {
 			p, ok := m.peerOf(ski)
 			if !ok {
@@ -1048,7 +1174,7 @@ func main() {
 		Property: "C12",
 		Clauses: map[int64]string{1: "not-presented-once-to-every-callback", 2: "second-outcome-for-a-write", 3: "applied-without-unanimous-approval",
 			4: "timely-verdict-without-effect", 5: "timeout-without-error-result", 6: "output-or-bookkeeping-for-removed-connection",
-			7: "data-not-the-write-applied-last", 8: "malformed-observation", 98: "unparseable-observation", 99: "unparseable-operation"},
+			7: "data-not-the-write-applied-last", 8: "malformed-observation", 9: "call-into-the-stack-never-returned", 98: "unparseable-observation", 99: "unparseable-operation"},
 		OpNames: map[int64]string{0: "add-callback", 1: "arrive", 2: "verdict-lookup", 3: "verdict-commit", 4: "timeout-expire", 5: "timeout-fire", 6: "remove-connection", 7: "probe"},
 		NewImpl: newImpl,
 		Gen:     gen,
@@ -1058,7 +1184,7 @@ func main() {
 		Extra: func() map[string]any {
 			statsMu.Lock()
 			defer statsMu.Unlock()
-			return map[string]any{"timing_retries": retries, "steps_not_realised": unreal, "implementation_step_outcomes": outcomeHist, "steps_not_realised_reasons": unrealWhy, "timeouts_awaited": expWaits,
+			return map[string]any{"timing_retries": retries, "steps_not_realised": unreal, "calls_that_never_returned": stuckCalls.Load(), "implementation_step_outcomes": outcomeHist, "steps_not_realised_reasons": unrealWhy, "timeouts_awaited": expWaits,
 				"slot_ms": float64(baseSlot) / float64(time.Millisecond), "max_timer_lateness_ms": float64(maxLate) / float64(time.Millisecond)}
 		},
 	})
